@@ -160,7 +160,7 @@ def targets_from_dag(nt, dep, names=None, rng=None):
 EXIT_CODES = [1, 2, 3, 7, 100, 127, 255]
 
 
-def scenario_from_behaviour(b, idx=0, rng=None):
+def scenario_from_behaviour(b, idx=0, rng=None, variant=0):
     """A TLC behaviour of RunImpl (plan + exit history) -> a concrete scenario that forces the same
     exit order and exit codes on the real system."""
     rng = rng or random.Random(idx)
@@ -181,8 +181,16 @@ def scenario_from_behaviour(b, idx=0, rng=None):
     prev = None
     for (c, t, code) in exits:
         steps = []
+        # variant 2: a task that exits cleanly after a failing sibling of its group first detaches from the
+        # capture pipes, so that its task completes normally instead of observing the cancellation
+        after_fail = any(e[0] == c and e[2] != 0 and group_of.get(e[1]) == group_of.get(t) for e in exits[:exits.index((c, t, code))])
+        if variant == 2 and code == 0 and after_fail:
+            steps.append({"op": "out", "text": "early %s %s\n" % (cmds[c - 1], paths[t])})
+            steps.append({"op": "close_output"})
         if prev is not None and prev[0] == c and group_of.get(prev[1]) == group_of.get(t):
             steps.append({"op": "wait", "tasks": [[cmds[prev[0] - 1], paths[prev[1]], "ended"]], "timeout_ms": 4000})
+            if variant == 2 and code == 0 and after_fail:
+                steps.append({"op": "sleep", "ms": 120})
         steps.append({"op": "out", "text": "out %s %s\n" % (cmds[c - 1], paths[t])})
         steps.append({"op": "exit", "code": 0 if code == 0 else EXIT_CODES[(idx + c + t) % len(EXIT_CODES)]})
         scripts["%s|%s" % (cmds[c - 1], paths[t])] = steps
@@ -200,7 +208,10 @@ def scenario_from_behaviour(b, idx=0, rng=None):
                 steps.append({"op": "exit", "code": 0})
                 scripts["%s|%s" % (cmds[c - 1], paths[t])] = steps
     sc = {"targets": ts, "commands": cmds, "kinds": kinds, "fou": b["fou"], "scripts": scripts,
-          "label": "tlc-behaviour-%d" % idx}
+          "label": "tlc-behaviour-%d-v%d" % (idx, variant)}
+    if variant == 1:
+        # delay monorail's own bookkeeping between joining a result and acting on it (guarded point)
+        sc["env"] = {"MONORAIL_VERIF_DELAY": "run.join_next:*:130"}
     if b["mode"] == "serial":
         order = [paths[list(g)[0]] for g in b["groups"]]
         sc["mode"] = "targets"
